@@ -499,6 +499,86 @@ func c14ephemeral(c *an.Ctx) {
 				}
 			}
 		}
+		// the same, spelled as a loop over a list of keys built first (`keys = append(keys, Registration{"topic", …})`):
+		// AddProducer runs for every element, and the topic key is appended on every path to the loop
+		for _, ac := range an.CallsTo(reg, ap) {
+			l := an.LoopContaining(an.NaturalLoops(reg), ac.Block())
+			if l == nil {
+				continue
+			}
+			il, ok := an.AsIndexLoop(l)
+			if !ok || il.Slice == nil {
+				continue
+			}
+			each, _ := loopDoesEach(reg, il, func(in ssa.Instruction, _ []ssa.Value) bool { return in == ac.(ssa.Instruction) })
+			isElem := false
+			var isElemOf func(v ssa.Value, depth int) bool
+			isElemOf = func(v ssa.Value, depth int) bool {
+				u, ok := v.(*ssa.UnOp)
+				if !ok || u.Op != token.MUL || depth > 2 {
+					return false
+				}
+				if ia, ok := u.X.(*ssa.IndexAddr); ok {
+					return an.SameValue(ia.X, il.Slice)
+				}
+				// the range variable: a cell written once per iteration with the element
+				if al, ok := u.X.(*ssa.Alloc); ok {
+					n, good := 0, false
+					for _, r := range an.Referrers(al) {
+						if st, ok := r.(*ssa.Store); ok && st.Addr == ssa.Value(al) {
+							n++
+							good = isElemOf(st.Val, depth+1)
+						}
+					}
+					return n == 1 && good
+				}
+				return false
+			}
+			isElem = isElemOf(arg(ac, 0), 0) || isElemOf(an.Strip(arg(ac, 0)), 0)
+			if !each || !isElem {
+				continue
+			}
+			an.Instrs(reg, func(in ssa.Instruction) {
+				call, ok := isBuiltinCall(in, "append")
+				if !ok || il.Blocks[in.Block()] || len(call.Call.Args) != 2 {
+					return
+				}
+				// the appends the list is made of: il.Slice, and backwards through append's first argument and merges
+				chain := map[ssa.Value]bool{}
+				var walk func(v ssa.Value, d int)
+				walk = func(v ssa.Value, d int) {
+					if chain[v] || d > 8 {
+						return
+					}
+					chain[v] = true
+					switch x := v.(type) {
+					case *ssa.Phi:
+						for _, e := range x.Edges {
+							walk(e, d+1)
+						}
+					case *ssa.Call:
+						if _, isApp := isBuiltinCall(x, "append"); isApp {
+							walk(x.Call.Args[0], d+1)
+						}
+					}
+				}
+				walk(il.Slice, 0)
+				if !chain[ssa.Value(call)] {
+					return
+				}
+				for _, e := range appendedElems(call.Call.Args[1]) {
+					cat := regCategory(e)
+					cats[cat] = true
+					if cat == "topic" {
+						q := &an.PathQ{Fn: reg, StartEntry: true, SinkEdge: func(e an.Edge, _ *an.PathState) bool { return e.To == il.Header && !il.Blocks[e.From] },
+							Cut: func(x ssa.Instruction, _ *an.PathState) bool { return x == in }}
+						if _, f := q.Find(); !f {
+							topicAlways = true
+						}
+					}
+				}
+			})
+		}
 		c.Check(cats["channel"] && topicAlways, reg, "channel REGISTER also registers the topic", reg.Pos(), "", "REGISTER topic channel does not add the producer to both the channel and the topic registration on every success path")
 	}
 }
